@@ -536,7 +536,7 @@ def _related(kind, value, expected):
         r = []
     if kind == "Name" and len(r) > 6:
         r = [x for x in r if not x.startswith("kw:")] + ["kw:*%d" % sum(1 for x in r if x.startswith("kw:"))]
-    return r or list(expected)
+    return r or list(expected) or ["<end-of-construct>"]
 
 
 def _ref_death(start, ts, fv, kv_tokens):
